@@ -61,6 +61,7 @@ pub fn configs(tier: Tier) -> Vec<Box<dyn Config>> {
         v.push(tab(Plan::Adv(0), 4, 5, vec![], true, tier, ""));
     }
     v.push(Box::new(super::c02::ZstTables { tier }));
+    v.push(Box::new(super::rehash::RehashGrammar { tier }));
     for plan in [Plan::Zero, Plan::Tail, Plan::Max] {
         v.push(seeded(plan, true, 1, tier));
         v.push(seeded(plan, false, if q { 2 } else { 3 }, tier));
